@@ -8,10 +8,10 @@
    open one is looked at by os.Stat while not longer than readBytes, or before anything was read ([pok], LStat).
    [pre_of c0 tail] = the bytes --tail skips ([] without --tail); [all e] = every byte ever written to the
    path, incarnation after incarnation; [ndel]/[pdel] = every byte Read has returned.
-   Proofs: Proofs/Follow{Base,Notify,Poll,Refute,Check,Main,AsFound}.v. *)
+   Proofs: Proofs/Follow{Base,Notify,Poll,Refute,Check,Live,Main,AsFound}.v. *)
 From Coq Require Import List NArith Arith Bool.
 From RareV Require Import Base.Hex Model.Follow Proofs.FollowBase Proofs.FollowNotify Proofs.FollowPoll
-  Proofs.FollowRefute Proofs.FollowCheck Proofs.FollowMain Proofs.FollowAsFound.
+  Proofs.FollowRefute Proofs.FollowCheck Proofs.FollowLive Proofs.FollowMain Proofs.FollowAsFound.
 Import ListNotations.
 
 (* safety ("exactly the bytes appended after the starting position, in order, without loss or duplication";
@@ -150,6 +150,73 @@ Example C15_rotation_poll :
   exists tr s, preach true (Some cAB) false tr s /\
                pdel s = cAB ++ cx /\ all (penv s) = cAB ++ cx /\ pfd s = Some (1, 1) /\ rb s = 1.
 Proof. exact poll_rotation_example. Qed.
+
+(* ---------------------------------------------------------------------------------------------------------
+   Eventual delivery, without temporal logic (Proofs/FollowLive.v).  Writer quiescent = only reader / watcher
+   steps (labels with is_env = false).  [must step goal k s]: every maximal sequence of such steps from s
+   reaches [goal] within k steps and is never stuck before (at each state short of the goal a step exists, and
+   EVERY step leads to a state from which the rest holds with k - 1).
+   Scheduling assumption: the run is maximal, i.e. the reader goroutine and the fsnotify goroutine are not
+   suspended for ever while one of them can move (weak fairness for the pair; no fairness between them, every
+   step decreases the measure).  fsnotify guarantees used (rules n_env, n_watch): every append / create puts a
+   Write / Create event for the path into the queue read by the goroutine, events are not dropped, and the
+   goroutine can always take the next one.  Polling needs neither; it needs a finite ReadAttempts (the budget
+   [patt]) and, for a re-created file, the STRICT form of the property's proviso (a new file of exactly
+   readBytes bytes is never noticed by the code). *)
+
+(* every reader / watcher step strictly decreases
+   nmu = 3 |queued events| + 2 [write signal] + 2 [delete signal] + undelivered bytes + [about to read] *)
+Theorem C15_measure_notify : forall reopen c0 tail tr s, nreach reopen c0 tail tr s ->
+  forall l s', is_env l = false -> nstep reopen true s l s' -> nmu (pre_of c0 tail) s' < nmu (pre_of c0 tail) s.
+Proof. exact m_measure_notify. Qed.
+Print Assumptions C15_measure_notify.
+(* the descriptor is the file at the path, bytes of it are undelivered, the stream has not ended => a step exists *)
+Theorem C15_progress_notify : forall reopen c0 tail tr s, nreach reopen c0 tail tr s ->
+  forall off, nfd s = Some (ino (nenv s), off) -> present (nenv s) = true ->
+  off < length (curc (nenv s)) -> npcs s <> NEnded -> exists l s', is_env l = false /\ nstep reopen true s l s'.
+Proof. exact m_progress_notify. Qed.
+Print Assumptions C15_progress_notify.
+(* hence: file in place (the descriptor is the file at the path) => everything written is inevitably delivered *)
+Theorem C15_eventual_notify : forall reopen c0 tail tr s, nreach reopen c0 tail tr s ->
+  fd_current (nenv s) (nfd s) = true -> npcs s <> NEnded ->
+  must (nstep reopen true) (ndrained c0 tail) (nmu (pre_of c0 tail) s) s.
+Proof. exact m_eventual_notify. Qed.
+Print Assumptions C15_eventual_notify.
+(* re-open, no descriptor, the re-created file is at the path and a wake-up for it is pending (write signal, or
+   a Write / Create event still queued) => it is inevitably opened and delivered completely.  (Without a
+   pending wake-up nothing happens until the next write: C15_reopen_wakeup_refuted.) *)
+Theorem C15_eventual_reopen_notify : forall reopen c0 tail tr s, nreach reopen c0 tail tr s ->
+  reopen = true -> nfd s = None -> present (nenv s) = true ->
+  sigW s = true \/ In EvWrite (queue s) \/ In EvCreate (queue s) ->
+  must (nstep reopen true) (ndrained c0 tail) (nmu (pre_of c0 tail) s) s.
+Proof. exact m_eventual_reopen_notify. Qed.
+Print Assumptions C15_eventual_reopen_notify.
+
+(* polling, file in place: pmu = 4 undelivered bytes + {os.Stat: 2, os.Open: 1, read: 0} *)
+Theorem C15_measure_poll : forall reopen c0 tail tr s, (c0 = None -> reopen = true) -> preach reopen c0 tail tr s ->
+  forall off l s', pfd s = Some (ino (penv s), off) -> present (penv s) = true ->
+  off < length (curc (penv s)) -> is_env l = false -> pstep reopen s l s' ->
+  pmu (pre_of c0 tail) s' < pmu (pre_of c0 tail) s.
+Proof. exact m_measure_poll. Qed.
+Print Assumptions C15_measure_poll.
+Theorem C15_progress_poll : forall reopen (s : pstate) off, pfd s = Some (ino (penv s), off) -> present (penv s) = true ->
+  off < length (curc (penv s)) -> ppcs s <> PEnded -> exists l s', is_env l = false /\ pstep reopen s l s'.
+Proof. intros reopen s. exact (pprogress reopen s). Qed.
+Theorem C15_eventual_poll : forall reopen c0 tail tr s, (c0 = None -> reopen = true) -> preach reopen c0 tail tr s ->
+  fd_current (penv s) (pfd s) = true -> ppcs s <> PEnded ->
+  must (pstep reopen) (pdrained c0 tail) (pmu (pre_of c0 tail) s) s.
+Proof. exact m_eventual_poll. Qed.
+Print Assumptions C15_eventual_poll.
+(* polling, re-open, a re-created non-empty file not opened yet, strictly shorter than readBytes (or nothing read
+   so far), every removed file delivered: after at most the remaining read attempts, os.Stat and os.Open the new
+   file is open at offset 0 and is then delivered completely; bound = cw (3 + attempts left | 2 | 1) + 4 undelivered *)
+Theorem C15_eventual_reopen_poll : forall reopen c0 tail tr s, (c0 = None -> reopen = true) -> preach reopen c0 tail tr s ->
+  reopen = true -> fd_current (penv s) (pfd s) = false -> present (penv s) = true ->
+  0 < size (penv s) -> size (penv s) < rb s \/ rb s = 0 ->
+  pre_of c0 tail ++ pdel s = concat (past (penv s)) ->
+  must (pstep reopen) (pdrained c0 tail) (cw s + 4 * undel (pre_of c0 tail) (penv s) (pdel s)) s.
+Proof. exact m_eventual_reopen_poll. Qed.
+Print Assumptions C15_eventual_reopen_poll.
 
 (* the boolean form evaluated by the correspondence holds for, and the functional projection [model] agrees
    with, every quiescent run (everything written has been delivered; ended iff plain follow and removed) *)
